@@ -47,12 +47,45 @@ def cgr(s):
     return _cgr[s]
 
 
+def consume(make):
+    """The items of a fresh iterator, taken in every way Python offers: a for loop, list(), tuple(), list.extend,
+    repeated next(), and a loop continued after exhaustion (must stay exhausted).  All must agree."""
+    ref = [x for x in make()]
+    ways = {}
+    try:
+        ways["list()"] = list(make())
+        ways["tuple()"] = list(tuple(make()))
+        e = []
+        e.extend(make())
+        ways["extend"] = e
+        it = make()
+        n = []
+        while True:
+            try:
+                n.append(next(it))
+            except StopIteration:
+                break
+        ways["next()"] = n
+        ways["after-exhaustion"] = ref + list(it)
+        it2 = iter(make())
+        ways["iter(iter)"] = [x for x in it2]
+    except BaseException as e:  # noqa
+        return ref, f"consumption:{type(e).__name__}:{e}"
+    for name, v in ways.items():
+        if v != ref:
+            return ref, f"consumption:{name} gives {len(v)} items, the for loop {len(ref)}"
+    return ref, None
+
+
 def answer(line):
     w = line.split()
     op = w[0]
     if op == "kmers":
         k, s = int(w[1]), text(w[2])
-        return ",".join(f"{f}:{r}" for f, r in kt.KmerGenerator(s, k))
+        items, bad = consume(lambda: kt.KmerGenerator(s, k))
+        if bad:
+            return bad
+        return ",".join(f"{f}:{r}" for f, r in items)
     if op == "kmersdel":
         # the iterator must stay valid after the Python string is released
         k = int(w[1])
@@ -69,7 +102,10 @@ def answer(line):
         return ",".join(f"{f}:{r}" for f, r in first)
     if op == "mins":
         wz, m, s = int(w[1]), int(w[2]), text(w[3])
-        return ",".join(f"{a}:{b}:{c}" for a, b, c in kt.MinimiserGenerator(s, wz, m))
+        items, bad = consume(lambda: kt.MinimiserGenerator(s, wz, m))
+        if bad:
+            return bad
+        return ",".join(f"{a}:{b}:{c}" for a, b, c in items)
     if op == "minsdel":
         wz, m = int(w[1]), int(w[2])
         s = text(w[3]) + ""
